@@ -34,6 +34,12 @@ func (g *c18gen) timePred() string {
 			t = strings.Replace(t, "time", "time::tag", 1)
 		}
 	}
+	switch g.r.intn(8) { // the whole comparison alone in parentheses, once or twice
+	case 0:
+		t = "(" + t + ")"
+	case 1:
+		t = "((" + t + "))"
+	}
 	return t
 }
 
